@@ -962,9 +962,21 @@ fn c05(tier: &str, thorough: bool) -> i32 {
 fn c11(tier: &str, thorough: bool) -> i32 {
     let ctx = leak(Ctx::new("C11", tier, "exploration", "e5", &["panic", "hang", "abort", "memory"]));
     ctx.assume("every case runs in an isolated worker process (stall limit 30 s, confirmed alone with 60 s)");
-    ctx.set_rule("every single corruption of the C05 enumeration that permissive open accepts x every mutation script up to the depth (quick 1, thorough 2) over: create small / large stream, create storage, create under each storage, rewrite / append / set_len(0, 100, 5000) / remove / relative seeks around the end followed by small writes on each existing stream, remove each storage, remove_storage_all(/), setters, flush; each script starts from a fresh open of the corrupted bytes; plus all pairs of chain-cell corruptions on one (thorough: four) bases x every script of length 1; oracle: Ok or Err, never a panic, hang or abort");
+    ctx.set_rule("every single corruption of the C05 enumeration that permissive open accepts x every mutation script of length 1 (thorough: also every script of length 2 on the field-aware corruptions of seven small bases) over: create small / large stream, create storage, create under each storage, rewrite / append / set_len(0, 100, 5000) / remove / relative seeks around the end followed by small writes on each existing stream, remove each storage, remove_storage_all(/), setters, flush; each script starts from a fresh open of the corrupted bytes; plus all pairs of chain-cell corruptions on one (thorough: four) bases x every script of length 1; oracle: Ok or Err, never a panic, hang or abort");
     let only: Option<Vec<&str>> = if thorough { None } else { Some(vec!["fresh-v3", "tree-v3", "mixed-v3", "dir2-v3", "minifull-v3", "synth-three-minis-v3", "fresh-v4"]) };
-    let (mut cases, mut scripts) = sweep_all(ctx, crate::e5::Mode::Mutating(if thorough { 2 } else { 1 }), thorough, &[], only.as_deref());
+    let (mut cases, mut scripts) = sweep_all(ctx, crate::e5::Mode::Mutating(1), thorough, &[], only.as_deref());
+    if thorough {
+        // scripts of length 2 on the field-aware corruptions of the small bases (the full sweep x all
+        // ~1000 two-step scripts over every base does not finish in hours)
+        for b in ["fresh-v3", "tree-v3", "mixed-v3", "dir2-v3", "minifull-v3", "synth-three-minis-v3", "tree-v4"] {
+            let id = format!("fields:{}", b);
+            let st = crate::e5::sweep_base(ctx, crate::e5::Mode::Mutating(2), &id, thorough, false, 16);
+            ctx.note(format!("base {}: field-aware single corruptions x scripts up to length 2: cases={} scripts={} problems={} worker restarts={}", id, st.cases, st.scripts, st.problems, st.restarts));
+            cases += st.cases;
+            scripts += st.scripts;
+            ctx.add("worker_restarts", st.restarts);
+        }
+    }
     // all pairs of chain-cell corruptions (see C05) that permissive open accepts x every script of length 1
     if !thorough {
         // a V4 file with streams (64-bit stream lengths): field-aware corruptions only in the quick tier
